@@ -220,6 +220,66 @@ def run(report, p):
             else:
                 r10.check(not o["multiple"], c, o["node"], f"option {o['decl']} of `{name}` is declared multiple: the spec opens its value as one file path", construct=f"{name}: -ii declared multiple")
 
+    # ------------------------------------------------------------------ R12.14
+    r14 = report.rule(
+        "R12.14",
+        "an ignored path is never MISSING: wherever a command decides on the completeness failure (constructs CompletenessCheckFailedException) the decision is "
+        "taken on the collection that went through the ignore filter (a comprehension with `not spec.match_file(...)`, in the function itself or in the helper whose "
+        "result it uses) - not on the unfiltered set of expected paths, even where the filtered one is computed next to it",
+        1,
+    )
+
+    def _filtered_value(v, f, depth=0):
+        if isinstance(v, (ast.ListComp, ast.SetComp, ast.GeneratorExp)):
+            return any("match_file" in norm(i) for g_ in v.generators for i in g_.ifs)
+        if isinstance(v, ast.Call) and depth < 2:
+            if norm(v.func) in ("list", "set", "sorted", "tuple") and v.args:
+                return _filtered_value(v.args[0], f, depth)
+            for t in p.resolve_call(v, f):
+                if t in p.funcs:
+                    hf = p.funcs[t]
+                    rets = [n for n in walk_no_nested(hf.node) if isinstance(n, ast.Return) and n.value is not None]
+                    if rets and all(_filtered_name_or_value(rt.value, hf, depth + 1) for rt in rets):
+                        return True
+        return False
+
+    def _filtered_name_or_value(e, f, depth=0):
+        if isinstance(e, ast.Name):
+            binds = [a for a in walk_no_nested(f.node) if isinstance(a, ast.Assign) and any(isinstance(t, ast.Name) and t.id == e.id for t in a.targets)]
+            return bool(binds) and any(_filtered_value(a.value, f, depth) for a in binds)
+        return _filtered_value(e, f, depth)
+
+    n14 = 0
+    for fq, f in sorted(p.funcs.items()):
+        if fq not in shipped_reach:
+            continue
+        for c in [n for n in walk_no_nested(f.node) if isinstance(n, ast.Call) and norm(n.func).endswith("CompletenessCheckFailedException")]:
+            n14 += 1
+            r14.instance(f, c, f"{f.name}: {norm(c)[:50]}")
+            g14 = cfg_of(f)
+            names14 = []
+            for t_, l_ in g14.necessary_branches(g14.node_for(c)):
+                for x in ast.walk(t_.ast):
+                    if isinstance(x, ast.Name) and isinstance(x.ctx, ast.Load) and x.id not in ("len", "bool") and x.id not in names14:
+                        names14.append(x.id)
+            colls = [nm for nm in names14 if any(isinstance(a, ast.Assign) and any(isinstance(t, ast.Name) and t.id == nm for t in a.targets) and isinstance(a.value, (ast.ListComp, ast.SetComp, ast.GeneratorExp, ast.Call, ast.BinOp, ast.Name)) for a in walk_no_nested(f.node)) or nm in f.params]
+            colls = [nm for nm in colls if not nm.startswith("num_") and nm not in ("exception", "detect_renaming", "single_file")]
+            if not colls:
+                r14.check(True, f, c, "")
+                continue
+            filt = [nm for nm in colls if _filtered_name_or_value(ast.Name(id=nm, ctx=ast.Load()), f)]
+            if filt:
+                r14.check(True, f, c, "")
+                continue
+            # is a filtered collection computed in this function at all (and then not consulted)?
+            beside = [a for a in walk_no_nested(f.node) if isinstance(a, ast.Assign) and _filtered_value(a.value, f)]
+            if beside and not any(nm in f.params for nm in colls):
+                r14.check(False, f, c, f"the completeness failure is decided on `{colls[0]}`, the expected paths as they were BEFORE the ignore filter, although the filtered result is at hand (`{norm(beside[0].targets[0])} = {norm(beside[0].value)[:50]}`): a recorded path that the effective patterns now ignore (present or deleted) makes this command exit 10 `files missing` while its siblings accept the tree", construct=f"{f.name}: missing decided on the unfiltered set `{colls[0]}`")
+            else:
+                r14.note(f"{f.loc(c)}: the condition of the completeness failure ({colls}) could not be related to the ignore filter by this rule (R12.3 / R12.9 judge the pipeline)")
+    if n14 == 0:
+        raise AnalysisError("no construction of CompletenessCheckFailedException found in the shipped commands")
+
     # ------------------------------------------------------------------ R12.9
     r9 = report.rule(
         "R12.9",
